@@ -8,6 +8,7 @@ import (
 	"bytes"
 	"encoding/json"
 	"fmt"
+	"slices"
 	"sort"
 	"strings"
 	"testing"
@@ -192,6 +193,46 @@ func observeTrie(tr *trie.Trie, m *trieModel, alphabet []byte, what string) erro
 	for i := range got {
 		if got[i] != members[i] {
 			return fmt.Errorf("%s: ForEach reports %q, want the members %q", what, got, members)
+		}
+	}
+	// A traversal started from inside the callback of another one (and Has called from it):
+	// traversals only read the trie, so both report every member exactly once.
+	if len(members) >= 2 {
+		var outer []string
+		var nerr error
+		if p := catch(func() {
+			tr.ForEach(func(b []byte) bool {
+				outer = append(outer, string(b))
+				if len(outer) == 1 || len(outer) == len(members)/2+1 {
+					if !tr.Has(b) {
+						nerr = fmt.Errorf("%s: Has(%q) is false inside the ForEach callback that reports %q", what, b, b)
+						return false
+					}
+					inner, err := trieMembers(tr, len(members)+4)
+					if err != nil {
+						nerr = fmt.Errorf("%s: a ForEach started inside a ForEach callback: %v", what, err)
+						return false
+					}
+					if !slices.Equal(inner, members) {
+						nerr = fmt.Errorf("%s: a ForEach started inside a ForEach callback reports %q, want the members %q", what, inner, members)
+						return false
+					}
+					if string(b) != outer[len(outer)-1] {
+						nerr = fmt.Errorf("%s: the slice passed to the outer ForEach callback changed from %q to %q while an inner ForEach ran", what, outer[len(outer)-1], b)
+						return false
+					}
+				}
+				return len(outer) <= len(members)+4
+			})
+		}); p != nil {
+			return fmt.Errorf("%s: ForEach with a nested ForEach in its callback panicked: %v", what, p)
+		}
+		if nerr != nil {
+			return nerr
+		}
+		sort.Strings(outer)
+		if !slices.Equal(outer, members) {
+			return fmt.Errorf("%s: a ForEach whose callback runs another ForEach reports %q, want the members %q", what, outer, members)
 		}
 	}
 	probe := func(x string) error {
